@@ -25,7 +25,7 @@ from torch.overrides import _get_current_function_mode_stack
 
 MOM = {"m50": 0.5, "m90": 0.9, "m25": 0.25}
 BATCH = {"b1": 1.0, "b2": 3.0, "b3": 0.25, "bone": None}
-QT = {"qint8": "qint8", "qfloat8": "qfloat8", "qint4": "qint4", "qint2": "qint2", "qfloat8_e5m2": "qfloat8_e5m2"}
+QT = {"qint8": "qint8", "qfloat8": "qfloat8", "qint4": "qint4", "qint2": "qint2", "qfloat8_e5m2": "qfloat8_e5m2", "qfloat8_e4m3fn": "qfloat8_e4m3fn"}
 
 
 def digest(t):
@@ -572,7 +572,7 @@ class Runner:
                 quantize(new)
             elif target == "otherq":
                 qa, kw = self.qargs
-                other = {"qint8": "qint4", "qfloat8": "qint8", "qint4": "qfloat8", "qint2": "qint8"}[qa["wq"]]
+                other = {"qint8": "qint4", "qfloat8": "qint8", "qint4": "qfloat8", "qint2": "qint8", "qfloat8_e5m2": "qint8", "qfloat8_e4m3fn": "qint4"}[qa["wq"]]
                 kw2 = dict(kw, weights=qtypes[other])
                 leaves = leaf_modules(new)
                 sel = [leaves[0][1]] if qa["filter"] == "first" else [leaves[-1][1]] if qa["filter"] == "last" else None
